@@ -231,6 +231,10 @@ PROPS["C03"]["level_text"] += (
 PROPS["C10"]["level_text"] += (
     "; stage 3 of the encoder (mapping_to_items, both formats, with its NameError / TypeError cases) is tied to the source the same way "
     "(C10_mapping_to_items_is_the_source)")
+PROPS["C03"]["level_text"] += (
+    "; the jump relaxation is tied to the source too (C03_relaxation_step_is_the_source: the per-instruction body of the second pass of the "
+    "`while changed_instruction_lengths` loop, re-translated on every run, computes the model's step - size, running offset, new operand, a flag that "
+    "is only ever raised - and C03_update_jumps_is_the_iteration_of_that_step)")
 
 NOT_CLAIMED = {
 }
